@@ -223,7 +223,7 @@ fn gen_rng_op(rng: &mut SplitMix, t: &Target) -> Op {
 
 fn gen_restart(rng: &mut SplitMix, t: &Target) -> Op {
     let fmt = Fmt::pick(rng, t.image_finite);
-    Op::Restart { fmt, behaviour: ReadBehaviour::random(rng), publish: rng.chance(1, 2) }
+    Op::Restart { fmt, behaviour: ReadBehaviour::random(rng), publish: rng.chance(1, 2), place: *rng.pick(&[0u8, 0, 0, 1, 2]) }
 }
 
 fn gen_mixed_op(rng: &mut SplitMix, t: &Target, probe: &Op, c18: bool) -> Op {
@@ -289,6 +289,25 @@ fn gen_mixed_op(rng: &mut SplitMix, t: &Target, probe: &Op, c18: bool) -> Op {
             82..=85 => Op::Build,
             86..=88 => Op::Persist { fmt: Fmt::pick(rng, t.image_finite) },
             89..=94 => gen_restart(rng, t),
+            95..=96 => {
+                // re-entrancy: a second call made from inside a scalar callback of
+                // the first, same sampler, same thread; early events (edge selection)
+                // are favoured, the inner point is steered like any other
+                let (point, ed, mut st) = match gen_sample_x_on(rng, t) {
+                    Op::SampleX { point, ed, st } => (point, ed, st),
+                    _ => unreachable!(),
+                };
+                st.debug = false;
+                let inner_op = gen_sample_x(rng, &t.spec, t.dim);
+                let (ipoint, ied, mut ist) = match steer_to_boundary(rng, &t.s, inner_op) {
+                    Op::SampleX { point, ed, st } => (point, ed, st),
+                    _ => unreachable!(),
+                };
+                ist.debug = false;
+                let at = if rng.chance(2, 3) { rng.below(120) } else { rng.below(4000) };
+                let prec = *rng.pick(&[0u8, 24, 24, 53, 40]);
+                Op::Nested { point, ed, st, at, ipoint, ied, ist, prec }
+            }
             _ => Op::ImageCheck,
         }
     }
